@@ -82,6 +82,18 @@ CHECKS = {
         design_ref="6.14",
         note=LEVEL_NOTE_COMMON + " Angular, bit-packed and sparse splits are not modelled concretely (float normalisation): generic builder theorem + per-run proved checkers. recursive_convert is modelled and compared exactly; its general correctness is established per tree by flat_chk, not by a once-for-all proof.",
     ),
+    "C02": dict(
+        technique="Coq proof (invariant over the whole search: visited-guarded pushes keep the result heap duplicate-free with true distances; heap-sort read-out; translation lemmas; refutation of plain fancy indexing) over a bit-exact model of the search closure incl. float32 (1+epsilon)*root; exact differential execution of the compiled closure; C02 oracle on query() answers",
+        text=("Theorems in coq/props/C02.v: for every search graph, every duplicate-free leaf candidate list, every generator state, k, "
+              "n_neighbors and epsilon, the sorted answer of a query has k slots, every filled slot is an in-range point with exactly "
+              "d(v,query) < inf, filled slots are pairwise distinct (random seeds included), ascending, unfilled slots are (-1,+inf) and form "
+              "a suffix; a filled slot translates to vertex_order[v]; an unfilled slot stays -1 with the repaired translation, while plain "
+              "fancy indexing is shown to fabricate a real row number. The compiled search closure of real prepared indexes (dense and CSR) "
+              "reproduces the extracted model bit-for-bit on single queries; query() answers of all index kinds are checked against the C02 "
+              "statement with float64 reference distances to the CALLER's rows."),
+        design_ref="6.2",
+        note=LEVEL_NOTE_COMMON + " The tree descent's float computation is not modelled (its result is taken from the compiled closure); parallel-batch mode is covered by the per-answer theorem (any generator state) and sampled on the implementation.",
+    ),
 }
 
 REASON_PENDING = "check not built yet in this round (design in DESIGN.md section 6; no claim is made until the check exists)"
